@@ -24,7 +24,7 @@ pub fn header_variants(ctx: &Ctx) -> Vec<(u8, u16, u128)> {
 }
 
 pub fn run(ctx: &Ctx) -> Report {
-    let (n_full, n_small) = ctx.tier.pick((3, 4), (4, 5));
+    let (n_full, n_small) = ctx.tier.pick((4, 5), (5, 7));
     let sk = engine_in::skeletons(n_full, n_small);
     let hv = header_variants(ctx);
     let n_sk = sk.len();
